@@ -11,7 +11,11 @@ Local Open Scope N_scope.
 Inductive role := Server (* WebSocketHandler *) | Client (* WebSocketClientConnection, callback style *).
 
 (* what the application's on_message does with a message *)
-Inductive msgkind := MSync | MAsync (* returns a Future resolved by EMsgDone *) | MRaise.
+Inductive msgkind :=
+| MSync
+| MAsync     (* returns a Future, resolved by EMsgDone or failed by EMsgFail *)
+| MRaise     (* raises synchronously *)
+| MCoRaise.  (* a coroutine that raises before its first await *)
 
 (* payload of a Close frame sent by the peer.  The UTF-8 codec itself is not
    modelled: the peer (harness) encodes [reason] (code points); CPBadUtf8 is a
@@ -39,8 +43,10 @@ Inductive event :=
 | EPeerReset              (* the connection is reset now (noticed even if nothing is being read) *)
 | ETick                   (* virtual time advances to the next armed timer, which fires *)
 | EMsgDone                (* the Future of a pending asynchronous on_message resolves *)
+| EMsgFail                (* ... or fails with an exception (the coroutine raised after an await) *)
 | EOpenDone               (* a coroutine open() that was still pending returns: _receive_frame_loop starts *)
-| EWrite.                 (* the application calls write_message *)
+| EWrite                  (* the application calls write_message *)
+| EAppPing.               (* the application calls handler.ping() / conn.ping() *)
 
 (* frames we put on the wire *)
 Inductive sframe := SClose (code : option N) (reason : list N) | SData | SPing | SPong.
@@ -52,6 +58,8 @@ Inductive item :=
 | IOnMessage
 | IOnClose (code : option N) (reason : option (list N))   (* on_close() / on_message_callback(None) *)
 | IWriteOk | IWriteErr                       (* write_message returned / raised WebSocketClosedError *)
+| IPingOk | IPingErr                         (* ping() returned / raised WebSocketClosedError *)
+| ICloseErr                                  (* close() raised (struct.error / ValueError): unencodable arguments *)
 | ILogExc.
 
 Inductive lstate := LOpening (* coroutine open() pending, loop not started *) | LRead | LBlocked | LDone.
@@ -115,6 +123,20 @@ Definition init (c : cfg) : state :=
 Definition timed_out_reason : list N := [112;105;110;103;32;116;105;109;101;100;32;111;117;116].
 Definition too_big_reason : list N := [109;101;115;115;97;103;101;32;116;111;111;32;98;105;103].
 
+(* ---------- close(code, reason): can the Close frame be built? ---------- *)
+(* len(utf8(reason)) for a reason given as code points (no surrogates) *)
+Definition utf8_len1 (cp : N) : N :=
+  if cp <? 128 then 1 else if cp <? 2048 then 2 else if cp <? 65536 then 3 else 4.
+Fixpoint utf8_len (l : list N) : N :=
+  match l with [] => 0 | cp :: l' => utf8_len1 cp + utf8_len l' end.
+(* struct.pack(">H", code) needs code <= 65535; _write_frame refuses control payloads > 125 bytes *)
+Definition close_args_ok (code : option N) (reason : option (list N)) : bool :=
+  let code' := match code, reason with None, Some _ => Some 1000 | _, _ => code end in
+  match code' with
+  | None => true                                  (* empty payload *)
+  | Some c => (c <? 65536) && (2 + utf8_len (match reason with Some r => r | None => [] end) <=? 125)
+  end.
+
 (* ---------- WebSocketProtocol13.close ---------- *)
 Definition proto_close (code : option N) (reason : option (list N)) (s : state) : state * list item :=
   let '(s1, o1) :=
@@ -150,10 +172,6 @@ Definition notify (r : role) (s : state) : state * list item :=
 Definition loop_finish (r : role) (s : state) : state * list item :=
   let '(s1, o) := notify r s in (set_loop LDone s1, o).
 
-(* callback-style client: the return value of on_message_callback is ignored *)
-Definition eff_kind (r : role) (k : msgkind) : msgkind :=
-  match r, k with Client, MAsync => MSync | _, _ => k end.
-
 (* ---------- _receive_frame / _handle_message for one complete frame ---------- *)
 Definition handle_frame (r : role) (f : frame) (s : state) : state * list item :=
   match f with
@@ -162,10 +180,11 @@ Definition handle_frame (r : role) (f : frame) (s : state) : state * list item :
   | FPing => if s_sc s then (abort s, [IHandled f]) else (s, [IHandled f; ISent SPong])
   | FPong => (set_pong true s, [IHandled f])
   | FMsg k =>
-      match eff_kind r k with
+      match k with
       | MSync => (s, [IHandled f; IOnMessage])
       | MAsync => (set_loop LBlocked s, [IHandled f; IOnMessage])
-      | MRaise => (abort s, [IHandled f; IOnMessage; ILogExc])
+      | MRaise                                   (* _run_callback: log_exception, _abort *)
+      | MCoRaise => (abort s, [IHandled f; IOnMessage; ILogExc])   (* _receive_frame: the same *)
       end
   | FClose p =>
       let s1 := set_ct true s in
@@ -223,7 +242,15 @@ Definition write (r : role) (s : state) : state * list item :=
   if negb (s_hconn s) || is_closing s then (s, [IWriteErr]) else (s, [ISent SData; IWriteOk]).
 
 Definition local_close (code : option N) (reason : option (list N)) (s : state) : state * list item :=
-  if s_hconn s then let '(s1, o) := proto_close code reason s in (set_hconn false s1, o) else (s, []).
+  if s_hconn s then
+    if negb (s_st s) && negb (s_sc s) && negb (close_args_ok code reason)
+    then (s, [ICloseErr])         (* the exception leaves close() before anything was changed *)
+    else let '(s1, o) := proto_close code reason s in (set_hconn false s1, o)
+  else (s, []).
+
+(* ---------- handler.ping() / conn.ping() ---------- *)
+Definition app_ping (s : state) : state * list item :=
+  if negb (s_hconn s) || is_closing s then (s, [IPingErr]) else (s, [ISent SPing; IPingOk]).
 
 (* ---------- one event ---------- *)
 Definition mstate := (state * list qitem)%type.
@@ -237,8 +264,13 @@ Definition act (c : cfg) (e : event) (m : mstate) : mstate * list item :=
   | EPeerReset => ((set_sc true s, q), [])
   | ETick => let '(s1, o) := tick c s in ((s1, q), o)
   | EMsgDone => ((match s_loop s with LBlocked => set_loop LRead s | _ => s end, q), [])
+  | EMsgFail => (match s_loop s with
+                 | LBlocked => ((set_loop LRead (abort s), q), [ILogExc])   (* log_exception, _abort; the loop goes on *)
+                 | _ => ((s, q), [])
+                 end)
   | EOpenDone => ((match s_loop s with LOpening => set_loop LRead s | _ => s end, q), [])
   | EWrite => let '(s1, o) := write (c_role c) s in ((s1, q), o)
+  | EAppPing => let '(s1, o) := app_ping s in ((s1, q), o)
   end.
 
 Definition step (c : cfg) (e : event) (m : mstate) : mstate * list item :=
